@@ -36,6 +36,12 @@ Correspondence (every run, against the working tree of /repo):
   counted as in C05).  A violating history is minimised (fresh process per attempt) to the shortest
   prefix that still makes the last step fail.  The Lean side of this clause is C05's
   `pruneSpec_preserves_results` / `prune_sound_of_aut` (DESIGN §6 F11).
+* the same clause on rare-but-legal rules, stream `reactor-sym`: the corpora above hold no rule whose centre is symmetric in
+  everything but ONE attribute of the rule (there an asymmetry always shows in an element, a bond change or the structure too).
+  `sym_rule` enumerates such rules: small skeletons with a known symmetry x one breaker (product- or reactant-side charge,
+  hydrogen count, one side of a bond-order pair; balanced on an atom and its image or on one position only) or none (control),
+  optionally with equal context atoms; applied forwards and backwards, as centre and as full template, to substrates grown from
+  the matched side with random substituents so that the exchanged positions differ chemically; same histories, same gate.
 """
 import itertools
 import json
@@ -1256,6 +1262,12 @@ def run_histories(ctx, pool, histories, timeout, stream, shrink=True):
             if r.get("results_raw") is not None:
                 n = len(r["results_raw"])
                 ctx.count("reactor_distinct_reactions:" + ("0" if n == 0 else "1" if n == 1 else "2-4" if n <= 4 else "5+"))
+                if stream != "reactor":
+                    ctx.count(f"{stream}:steps")
+                    if n >= 2 and n_raw >= 2:
+                        ctx.count(f"{stream}:steps_with_>=2_raw_matches_and_>=2_distinct_reactions")
+                    if r.get("n_map") is not None and r["n_map"] < n_raw:
+                        ctx.count(f"{stream}:steps_where_pruning_removed_matches")
             ctx.count("reactor_automorphism:" + ("on" if st["automorphism"] else "off"))
             ctx.count("reactor_strategy:" + st["strategy"])
             ctx.count("reactor_template_form:" + ("graph" if (st["tform"] == "string" and st["core"]) else st["tform"]))
@@ -1299,6 +1311,232 @@ def run_histories(ctx, pool, histories, timeout, stream, shrink=True):
         if len(ctx.violations) >= 5:
             break
     return bad
+
+
+# ---------------------------------------------------------------- generated symmetric-skeleton rules (reactor clause, rare inputs)
+# The corpora the reactor stream draws from hold no rule whose centre is symmetric in EVERYTHING but one attribute of the rule:
+# there the asymmetry of a rule always shows in an element, a bond change or the structure as well, so a comparison of rule atoms
+# / rule bonds that forgets one attribute (the product-side charge, a hydrogen count, one side of a bond-order pair) still finds
+# the right automorphism group.  This generator ENUMERATES such rules: a small skeleton with a known symmetry (two equal ends of
+# a bond that changes, X=Y=X, two equal components, 4- and 6-cycles of changed bonds), optionally with equal context atoms on the
+# exchanged positions, and exactly ONE breaker drawn from {charge, hydrogen count, bond order} x {left, right side as written} x
+# {balanced (+d on an atom, -d on its image) / one position only}; or no breaker (control: the rule IS symmetric and pruning has
+# legitimate work to do).  Rules are applied forwards and backwards (so that the broken attribute sits on the before- as well as
+# on the after-side of the rule as applied), as centre and as full template, to substrates grown from the matched side by
+# saturating every open valence with hydrogen / a random substituent / nothing (a radical centre), so that the positions the
+# skeleton's symmetry exchanges are usually chemically different and the two orientations of a match give different reactions.
+# The gate is the one of the reactor stream (pruned result set == set from gluing every raw match of the same query).
+SYM_ORDER = {1: "SINGLE", 2: "DOUBLE", 3: "TRIPLE"}
+
+# name, element choices for (X, Y), atoms (as X / Y), bonds before, bonds after, symmetries (image of atom i at position i-1)
+SYM_SKELETONS = [
+    ("pi2", [("C", None), ("N", None)], "XX", {(1, 2): 2}, {(1, 2): 1}, [(2, 1)]),
+    ("sigma2", [("O", None), ("S", None), ("N", None), ("C", None)], "XX", {(1, 2): 1}, {}, [(2, 1)]),
+    ("triple2", [("C", None)], "XX", {(1, 2): 3}, {(1, 2): 2}, [(2, 1)]),
+    ("single_to_double2", [("C", None), ("N", None)], "XX", {(1, 2): 1}, {(1, 2): 2}, [(2, 1)]),
+    ("cumulene3", [("N", "C"), ("C", "C"), ("O", "C"), ("O", "S")], "XYX", {(1, 2): 2, (2, 3): 2}, {(1, 2): 1, (2, 3): 1}, [(3, 2, 1)]),
+    ("path3", [("C", "C"), ("C", "N"), ("C", "O"), ("O", "C")], "XYX", {(1, 2): 1, (2, 3): 1}, {(1, 2): 2, (2, 3): 2}, [(3, 2, 1)]),
+    ("path3_break", [("C", "C"), ("C", "O"), ("C", "S"), ("O", "C")], "XYX", {(1, 2): 1, (2, 3): 1}, {}, [(3, 2, 1)]),
+    ("dimer4", [("C", None)], "XXXX", {(1, 2): 2, (3, 4): 2}, {(1, 2): 1, (2, 3): 1, (3, 4): 1}, [(4, 3, 2, 1)]),
+    ("cyclo4", [("C", None)], "XXXX", {(1, 2): 2, (3, 4): 2}, {(1, 2): 1, (3, 4): 1, (1, 3): 1, (2, 4): 1},
+     [(2, 1, 4, 3), (3, 4, 1, 2), (4, 3, 2, 1)]),
+    ("metathesis4", [("C", None)], "XXXX", {(1, 2): 2, (3, 4): 2}, {(1, 3): 2, (2, 4): 2}, [(2, 1, 4, 3), (3, 4, 1, 2), (4, 3, 2, 1)]),
+    ("coupling4", [("C", "O"), ("C", "S"), ("C", "N")], "XYYX", {(1, 2): 1, (3, 4): 1}, {(2, 3): 1, (1, 4): 1}, [(4, 3, 2, 1)]),
+    ("diels_alder6", [("C", None)], "XXXXXX", {(1, 2): 2, (2, 3): 1, (3, 4): 2, (5, 6): 2},
+     {(1, 2): 1, (2, 3): 2, (3, 4): 1, (4, 5): 1, (5, 6): 1, (1, 6): 1}, [(4, 3, 2, 1, 6, 5)]),
+]
+SYM_ATTRS = ("charge", "charge", "charge", "hcount", "hcount", "order", "none")
+SYM_GROUPS = ["C", "CC", "C(C)C", "F", "Cl", "OC", "CCC", "C(C)(C)C", "N(C)C", "C#N", "c1ccccc1", "C(F)(F)F"]
+SYM_HETERO_GROUPS = ["C", "CC", "C(C)C", "CCC", "C(C)(C)C", "c1ccccc1", "CCF"]
+SYM_SPECTATORS = ["O", "CCO", "N", "CC(C)=O", "ClCCl", "c1ccccc1", "C=CC#N", "CC=O", "COO", "C[N+](C)(C)C"]
+
+
+def _sym_side_smiles(atoms, bonds):
+    """atoms: {map: (element, charge, hcount)}; bonds: {(i, j): order}.  Written with RDKit, every atom in brackets with its
+    hydrogen count as given (an atom written without hydrogens is read back as a radical, as rule collections write centres)."""
+    from rdkit import Chem
+
+    rw = Chem.RWMol()
+    idx = {}
+    for m in sorted(atoms):
+        el, q, h = atoms[m]
+        a = Chem.Atom(el)
+        a.SetFormalCharge(q)
+        a.SetNoImplicit(True)
+        a.SetNumExplicitHs(h)
+        a.SetAtomMapNum(m)
+        idx[m] = rw.AddAtom(a)
+    for (i, j), o in sorted(bonds.items()):
+        if o:
+            rw.AddBond(idx[i], idx[j], getattr(Chem.BondType, SYM_ORDER[o]))
+    mol = rw.GetMol()
+    mol.UpdatePropertyCache(strict=False)
+    return Chem.MolToSmiles(mol)
+
+
+def sym_rule(rnd, forced_attr=None):
+    """One generated rule.  -> {name, template, skeleton, attr, side, balanced, context, sigma_broken} or None when RDKit refuses
+    to read the rule back as written (the generator's own self-check)."""
+    name, elem_choices, shape, lb, rb, syms = rnd.choice(SYM_SKELETONS)
+    X, Y = rnd.choice(elem_choices)
+    n = len(shape)
+    el = {i + 1: (X if ch == "X" else Y) for i, ch in enumerate(shape)}
+    attr = forced_attr or rnd.choice(SYM_ATTRS)
+    side = rnd.choice(["right", "right", "left"])        # as written; the direction of application is drawn by the caller
+    balanced = rnd.random() < 0.6
+    base_h = 1 if (attr == "hcount" or rnd.random() < 0.15) else 0
+    q = {"left": {i: 0 for i in el}, "right": {i: 0 for i in el}}
+    h = {"left": {i: base_h for i in el}, "right": {i: base_h for i in el}}
+    b = {"left": dict(lb), "right": dict(rb)}
+    sigma = rnd.choice(syms)
+    moved = [i for i in el if sigma[i - 1] != i]
+    what = "-"
+    if attr in ("charge", "hcount"):
+        a = rnd.choice(moved)
+        a2 = sigma[a - 1]
+        d = rnd.choice([1, -1])
+        tab = q if attr == "charge" else h
+        tab[side][a] += d
+        if balanced:
+            tab[side][a2] -= d
+        what = f"{attr}[{side}] of atom {a}{' and (opposite) of its image ' + str(a2) if balanced else ''}"
+    elif attr == "order":
+        pairs = []
+        for (i, j) in sorted(set(lb) | set(rb)):
+            i2, j2 = sorted((sigma[i - 1], sigma[j - 1]))
+            if (i2, j2) != (i, j):
+                pairs.append((i, j))
+        if not pairs:
+            return None
+        e = rnd.choice(pairs)
+        other = "left" if side == "right" else "right"
+        cur = b[side].get(e, 0)
+        cand = [o for o in (0, 1, 2, 3) if o != cur and o != b[other].get(e, 0)]
+        if not (b[other].get(e, 0)) and side == "left":
+            cand = [o for o in cand if o]      # the bond must exist on one side at least
+        new = rnd.choice(cand)
+        if new:
+            b[side][e] = new
+        else:
+            b[side].pop(e, None)
+        what = f"order[{side}] of bond {e}: {cur} -> {new}"
+    # equal context atoms on a pair of exchanged positions (mapped, bonds unchanged): part of a full template, outside the centre
+    context = rnd.random() < 0.3
+    nxt = n + 1
+    if context:
+        a = rnd.choice(moved)
+        cel = rnd.choice(["C", "C", "O", "N"])
+        for x in sorted({a, sigma[a - 1]}):
+            el[nxt] = cel
+            for s in ("left", "right"):
+                q[s][nxt], h[s][nxt] = 0, 0
+                b[s][(x, nxt)] = 1
+            nxt += 1
+    if any(v < 0 for s in h for v in h[s].values()):
+        return None
+    try:
+        sides = [_sym_side_smiles({i: (el[i], q[s][i], h[s][i]) for i in el}, b[s]) for s in ("left", "right")]
+    except Exception:  # noqa: BLE001 - RDKit refuses the drawn rule: not used
+        return None
+    tpl = sides[0] + ">>" + sides[1]
+    info = RC.analyze_reaction(tpl)
+    if not info["ok"] or info["mode"] == "mixed" or not info["changed_bonds"]:
+        return None
+    # self-check of the writing: read back, the rule is the one that was drawn
+    try:
+        for s, smi in zip(("left", "right"), sides):
+            at, bo, _, _ = RC._side_table(smi)
+            if at != {i: (el[i], q[s][i], h[s][i]) for i in el} or bo != {e: 2 * o for e, o in b[s].items() if o}:
+                return None
+    except Exception:  # noqa: BLE001
+        return None
+    return {"name": f"sym:{name}:{X}{Y or ''}:{attr}:{side}{':bal' if balanced and attr in ('charge', 'hcount') else ''}{':ctx' if context else ''}",
+            "template": tpl, "mode": info["mode"], "skeleton": name, "attr": attr, "side": side, "breaker": what}
+
+
+def sym_substrate(side, rnd, p_group=0.55, p_radical=0.15, p_spectator=0.2, max_heavy=20):
+    """A substrate containing one side of a generated rule: every open valence of a rule atom is saturated with hydrogen, a small
+    substituent drawn per position, or (rarely) left open, i.e. a radical centre.  -> SMILES without atom maps, or None."""
+    from rdkit import Chem
+
+    RC._quiet()
+    p_open = 0.3 if rnd.random() < p_radical else 0.0      # most substrates are closed-shell molecules
+    try:
+        rw = Chem.RWMol(RC._mol_keep_h(side))
+        todo = []
+        for a in rw.GetAtoms():
+            a.SetAtomMapNum(0)
+            k = a.GetNumRadicalElectrons()
+            if a.GetSymbol() == "H" or not k:
+                continue
+            todo.append((a.GetIdx(), k, a.GetTotalNumHs()))
+        for idx, k, h in todo:
+            left_open = 0
+            for _ in range(k):
+                carbon = rw.GetAtomWithIdx(idx).GetSymbol() == "C"
+                r = rnd.random()
+                if r < p_open:
+                    left_open += 1
+                elif r < p_open + (p_group if carbon else 0.7):
+                    grp = Chem.MolFromSmiles(rnd.choice(SYM_GROUPS if carbon else SYM_HETERO_GROUPS))
+                    off = rw.GetNumAtoms()
+                    rw = Chem.RWMol(Chem.CombineMols(rw, grp))
+                    rw.AddBond(idx, off, Chem.BondType.SINGLE)
+                else:
+                    h += 1
+            a = rw.GetAtomWithIdx(idx)
+            a.SetNumRadicalElectrons(left_open)
+            a.SetNoImplicit(True)
+            a.SetNumExplicitHs(h)
+        Chem.SanitizeMol(rw)
+        smi = Chem.MolToSmiles(rw)
+    except Exception:  # noqa: BLE001 - the generator failed to build a molecule: no substrate
+        return None
+    out = RC.unmapped_side(smi)
+    if out is None:
+        return None
+    if rnd.random() < p_spectator:
+        out = out + "." + rnd.choice(SYM_SPECTATORS)
+    mol = Chem.MolFromSmiles(out)
+    if mol is None or mol.GetNumHeavyAtoms() > max_heavy:
+        return None
+    return out
+
+
+def sym_rule_bases(ctx, n, tag="sym"):
+    """n (template, substrate) pairs: generated symmetric-skeleton rules with one breaker x {forward, backward} x {centre, full
+    template} x generated substrates.  Attribute x side x direction are drawn in rotation so that every run holds each."""
+    rnd = ctx.rnd
+    bases, tries = [], 0
+    while len(bases) < n and tries < 4 * n:
+        tries += 1
+        rule = None
+        for _ in range(12):     # the attribute is drawn in rotation; a draw RDKit refuses (valences) is redrawn
+            rule = sym_rule(rnd, forced_attr=SYM_ATTRS[tries % len(SYM_ATTRS)])
+            if rule is not None:
+                break
+            ctx.count(f"{tag}:rule_draws_not_usable")
+        if rule is None:
+            continue
+        # the breaker is on the after-side of the rule as applied when (side == right) == (direction forward)
+        invert = rnd.random() < (0.25 if rule["side"] == "right" else 0.6)
+        side = rule["template"].split(">>")[1 if invert else 0]
+        sub = None
+        for _ in range(4):
+            sub = sym_substrate(side, rnd)
+            if sub:
+                break
+        if not sub:
+            ctx.count(f"{tag}:no_substrate_for_rule")
+            continue
+        core = rnd.random() < 0.5
+        ctx.count(f"{tag}:attr:{rule['attr']}")
+        ctx.count(f"{tag}:skeleton:{rule['skeleton']}")
+        if rule["attr"] != "none":
+            ctx.count(f"{tag}:breaker_on:{'after' if (rule['side'] == 'right') != invert else 'before'}-side of the rule as applied")
+        bases.append({"name": rule["name"] + ("/bw" if invert else "/fw") + ("/centre" if core else "/full"), "template": rule["template"],
+                      "core": core, "invert": invert, "mode": rule["mode"], "substrate": sub})
+    return bases
 
 
 # ---------------------------------------------------------------- entry points
@@ -1372,7 +1610,13 @@ def run(ctx):
                     "graph (query / copy / relabel / sub-graph copy or view / set node label / set edge label / remove node / add edge), edited and "
                     "derived objects queried right away.  Stream reactor: corpus/c05_extra.txt pairs + seeded corpus sample (<=40 atoms quick) x "
                     "{centre, full ITS} x {forward, backward} x {own, foreign substrate}; one history per pair (three in thorough), 30% of them "
-                    "interleaved with a second pair; per-history time-out (steps not reached are counted as skipped).")
+                    "interleaved with a second pair; per-history time-out (steps not reached are counted as skipped).  Stream reactor-sym: generated "
+                    "rules = skeleton with a known symmetry (X=X, X-X, X#X, X-X -> X=X, X=Y=X, X-Y-X, two alkenes -> chain / 4-ring / metathesis, "
+                    "2 x (X-Y) exchange, Diels-Alder 6-cycle; X, Y over C/N/O/S) x ONE breaker in rotation {charge x3, hcount x2, bond order, none} "
+                    "x {left, right side as written} x {balanced on an atom and its image, one position only} x 30% equal context atoms on a pair "
+                    "of exchanged positions, applied forwards / backwards, as centre / full template, to a substrate grown from the matched side "
+                    "(each open valence: hydrogen / random substituent; 15% of the substrates may keep radical centres; 20% a spectator molecule); "
+                    "one history per pair, 20% interleaved with a second pair.")
     ctx.nontrivial_rule = ("graph case: >=2 nodes and (a non-trivial automorphism or >=2 components), distinct as encoded graph + keys + max_iter; "
                            "dedup case: >=2 matches and at least one orbit argument, distinct as JSON value; session query: as graph case on the "
                            "snapshot; reactor step: >=2 raw matches, distinct as history prefix")
@@ -1494,6 +1738,18 @@ def _run_streams(ctx):
         stamp("reactor")
     ctx.obligation("rule application (SynReactor, automorphism on and off, strategies all/comp/bt): within every history of applications the "
                    "pruned result set equals the set obtained from every raw match of the same query", len(ctx.violations) == nv)
+
+    # rare-but-legal rules: symmetric skeletons in which exactly one attribute of the rule breaks the symmetry
+    nv = len(ctx.violations)
+    if not ctx.violations:
+        n_sym, timeout = (220, 10.0) if ctx.quick else (2400, 60.0)
+        bases = sym_rule_bases(ctx, n_sym, "reactor-sym")
+        histories = [make_history(rnd, [b] if rnd.random() < 0.8 else [b, rnd.choice(bases)]) for b in bases]
+        run_histories(ctx, history_pool(), histories, timeout, "reactor-sym")
+        stamp("reactor-sym")
+    ctx.obligation("rule application with generated symmetric-skeleton rules whose symmetry ONE attribute of the rule breaks (charge / hydrogen "
+                   "count / bond order, on the left or right side, applied forwards and backwards) and their unbroken controls: the pruned result "
+                   "set equals the set obtained from every raw match of the same query", len(ctx.violations) == nv)
 
 
 def replay(ctx, case):
